@@ -312,6 +312,15 @@ def dict_get(I, ctx, v, key, node, default=None, raise_missing=True):
                 if raise_missing:
                     I.raise_exc(ctx, 'KeyError', 'empty dict', node)
                 return default if default is not None else NONE
+            if h.default is not None and getattr(h.default, 'kind', None) == 'list':
+                # defaultdict(list) indexed by a symbolic key: switch to the map-of-sequences form
+                if h.conc:
+                    raise Unsupported('defaultdict(list) mixing concrete and symbolic keys', node)
+                h.conc = None
+                h.kt, h.vt = TStr if isinstance(key, VStr) else TObj(), TSeq(TObj())
+                h.dom = Z.empty_set(h.kt.zsort)
+                h.arr = z3.K(h.kt.zsort, Z.empty_seq(Z.Obj))
+                return dict_get(I, ctx, v, key, node, default, raise_missing)
             # symbolic key into a concrete dict: case split over the keys
             for ck2, val in h.conc.items():
                 if ctx.branch(I.eq(ctx, key, key_value(ck2))):
@@ -328,11 +337,36 @@ def dict_get(I, ctx, v, key, node, default=None, raise_missing=True):
         if raise_missing:
             I.raise_exc(ctx, 'KeyError', 'key of another type', node)
         return default if default is not None else NONE
+    if isinstance(v, VRef) and getattr(ctx.heap[v.rid].default, 'kind', None) == 'list':
+        # defaultdict(list)[k]: the slot for k (created empty on first access)
+        hh = ctx.mutate(v, node)
+        hh.dom = z3.SetAdd(hh.dom, kz)
+        return VListSlot(v, kz)
     if ctx.branch(z3.IsMember(kz, dom)):
         return vt.wrap(Z.simp(z3.Select(arr, kz)))
     if raise_missing:
         I.raise_exc(ctx, 'KeyError', 'key not in dict', node)
     return default if default is not None else NONE
+
+
+class VListSlot(V):
+    """d[k] for a defaultdict(list) in map-of-sequences form: a view of the
+    list stored under k; append writes back into the map."""
+    kind = 'listslot'
+
+    def __init__(self, ref, kz):
+        self.ref = ref
+        self.kz = kz
+
+
+class DefaultFactory(object):
+    def __init__(self, kind):
+        self.kind = kind
+
+    def __call__(self, I, ctx):
+        if self.kind == 'list':
+            return ctx.alloc(HList(items=[]))
+        raise Unsupported('defaultdict factory %s' % self.kind)
 
 
 def dict_set(I, ctx, ref, key, val, node):
@@ -664,6 +698,8 @@ def length(I, ctx, v, node=None):
         return VInt(len(v.items))
     if isinstance(v, VNames):
         v = VSet(nset(v.z), TStr)
+    if isinstance(v, VListSlot):
+        return VInt(z3.Length(z3.Select(ctx.heap[v.ref.rid].arr, v.kz)))
     h = I.hobj(ctx, v)
     if isinstance(h, HList):
         return VInt(len(h.items)) if h.items is not None else VInt(z3.Length(h.z))
